@@ -96,6 +96,11 @@ def _plain_data(v):
                                               types.GetSetDescriptorType, types.WrapperDescriptorType, types.MethodDescriptorType)))
 
 
+def is_memo_wrapper(v):
+    """functools.lru_cache / functools.cache wrapper (or anything that looks like one): a process-wide memo table"""
+    return callable(getattr(v, 'cache_clear', None)) and callable(getattr(v, 'cache_info', None))
+
+
 def _snapshot_process_state():
     """the volatile state of a process that has imported lark and not used it yet, as far as it lives in class attributes and module
     globals of the lark package (plain data only: constants, flags, memo tables, 'last seen' records).  Found generically, so that a
@@ -122,10 +127,31 @@ def _snapshot_process_state():
     return snap
 
 
+def _clear_memo_wrappers():
+    """memoising wrappers anywhere in the lark package (module globals, class attributes): found at reset time, so that a change which
+    adds one is covered without naming it"""
+    n = []
+    for name, mod in sorted(sys.modules.items()):
+        if not (name == 'lark' or name.startswith('lark.')) or mod is None:
+            continue
+        for k, v in list(vars(mod).items()):
+            if is_memo_wrapper(v):
+                if v.cache_info().currsize:
+                    v.cache_clear()
+                    n.append('%s.%s (memo)' % (name, k))
+            elif isinstance(v, type) and v.__module__ == name:
+                for ck, cv in list(vars(v).items()):
+                    f = getattr(cv, '__func__', cv)
+                    if is_memo_wrapper(f) and f.cache_info().currsize:
+                        f.cache_clear()
+                        n.append('%s.%s.%s (memo)' % (name, k, ck))
+    return n
+
+
 def reset_lark_process_state():
     """a run starts in a process that has only imported lark: nothing an earlier run of this worker left in lark's class attributes
     or module globals survives (only durable state survives a restart).  Returns the names that had to be restored."""
-    restored = []
+    restored = _clear_memo_wrappers()
     for kind, owner, key, val in _PROCESS_STATE or ():
         if kind == 'class-keys':
             for ck in [ck for ck in vars(owner) if not ck.startswith('__') and ck not in key and ck != '_abc_impl']:
